@@ -20,10 +20,14 @@ def shrAnd (val : Int) (sh : Nat) (modulus : Nat) : Nat := ((val / (2 ^ sh : Nat
 
 /-- `while (valb >= 0) { out.push_back(TABLE[(val >> valb) & 0x3F]); valb -= 6; }`
     `out` is kept reversed. -/
+def encDrainF : Nat → Int → Int → List UInt8 → Int × List UInt8
+  | 0, _, valb, out => (valb, out)
+  | f + 1, val, valb, out =>
+    if valb ≥ 0 then encDrainF f val (valb - 6) (tbl (shrAnd val valb.toNat 64) :: out) else (valb, out)
+
+/-- fuel `valb/6 + 1` is exactly the number of iterations the `while` can make. -/
 def encDrain (val : Int) (valb : Int) (out : List UInt8) : Int × List UInt8 :=
-  if valb ≥ 0 then encDrain val (valb - 6) (tbl (shrAnd val valb.toNat 64) :: out) else (valb, out)
-termination_by (valb + 6).toNat
-decreasing_by omega
+  encDrainF (valb.toNat / 6 + 1) val valb out
 
 structure EncSt where
   val : Int
@@ -53,24 +57,25 @@ def encode (bs : List UInt8) : List UInt8 :=
 /-- `count_padding`: number of trailing '='. -/
 def countPadding (s : List UInt8) : Nat := (s.reverse.takeWhile (· == 61)).length
 
-inductive DecErr where
+inductive DecRes where
+  | ok (bs : List UInt8)
   | notB64      -- UTIL_THROW_IF(INV_TABLE[*c] == -1, ...)
   | length      -- out.reserve(size*3/4 - padding) with the subtraction wrapping: std::length_error
   deriving DecidableEq, Repr
 
-def decLoop : List UInt8 → Int → Int → List UInt8 → Except DecErr (List UInt8)
+def decLoop : List UInt8 → Int → Int → List UInt8 → DecRes
   | [], _, _, out => .ok out.reverse
   | c :: r, val, valb, out =>
     if c == 61 then .ok out.reverse
-    else if inv c == -1 then .error .notB64
+    else if inv c == -1 then .notB64
     else
       let val := wrap32 (val * 64 + inv c)
       let valb := valb + 6
       if valb ≥ 0 then decLoop r val (valb - 8) (UInt8.ofNat (shrAnd val valb.toNat 256) :: out)
       else decLoop r val valb out
 
-def decode (s : List UInt8) : Except DecErr (List UInt8) :=
-  if s.length * 3 / 4 < countPadding s then .error .length
+def decode (s : List UInt8) : DecRes :=
+  if s.length * 3 / 4 < countPadding s then .length
   else decLoop s 0 (-8) []
 
 end PV.Base64
